@@ -9,3 +9,4 @@ import FpVerif.Properties.C02
 import FpVerif.Properties.C16
 import FpVerif.Properties.C10
 import FpVerif.Properties.C11
+import FpVerif.Properties.C17
